@@ -488,7 +488,7 @@ pub fn run(ctx: &Ctx) {
         par_shards(ctx, &chunks, |ms, t: &mut Tally| {
             for m in ms.iter() {
                 t.evals += 1;
-                let expect = walk(m).is_ok();
+                let expect = crate::refmodel::wire::must_be_accepted(m);
                 let (f, tag, acc) = check_msg(m, expect);
                 if acc {
                     t.nontrivial += 1;
@@ -506,7 +506,7 @@ pub fn run(ctx: &Ctx) {
         // every valid compression layout of records of every name-bearing type
         let (n, capped) = super::c11::for_each_layout(ctx, 4000, &|m, t| {
             t.evals += 1;
-            let expect = walk(m).is_ok();
+            let expect = crate::refmodel::wire::must_be_accepted(m);
             let (f, tag, acc) = check_msg(m, expect);
             if acc {
                 t.nontrivial += 1;
